@@ -318,22 +318,29 @@ type fstat struct {
 	IsDir  bool   `json:"is_dir"`
 	Hash   string `json:"hash,omitempty"`
 	Size   int64  `json:"size"`
+	// the path itself (not what it leads to): a symbolic link and its target text
+	Link string `json:"link,omitempty"`
 }
 
 func statOf(p string) fstat {
+	link := ""
+	if lst, err := os.Lstat(p); err == nil && lst.Mode()&os.ModeSymlink != 0 {
+		t, _ := os.Readlink(p)
+		link = "-> " + t
+	}
 	st, err := os.Stat(p)
 	if err != nil {
-		return fstat{}
+		return fstat{Link: link}
 	}
 	if st.IsDir() {
-		return fstat{Exists: true, IsDir: true}
+		return fstat{Exists: true, IsDir: true, Link: link}
 	}
 	b, err := os.ReadFile(p)
 	if err != nil {
-		return fstat{Exists: true, Size: st.Size(), Hash: "unreadable"}
+		return fstat{Exists: true, Size: st.Size(), Hash: "unreadable", Link: link}
 	}
 	h := sha256.Sum256(b)
-	return fstat{Exists: true, Size: st.Size(), Hash: hex.EncodeToString(h[:])}
+	return fstat{Exists: true, Size: st.Size(), Hash: hex.EncodeToString(h[:]), Link: link}
 }
 
 func dumpAny(v any) map[string]any {
